@@ -76,6 +76,80 @@ def type_package(rnd, idx):
     return body, types
 
 
+# packages whose real name the user's package also uses as a package-level identifier, in a file that sorts before or
+# after the file that imports the package (possibly under an alias): the generated file must pick an import name that
+# clashes with neither (C04 "no clash between a generated name and any user identifier", C12 import aliases)
+CLASH_POOL = [
+    ("log", '"log"', "*%s.Logger", "%s.Default()"),
+    ("bytes", '"bytes"', "*%s.Buffer", "&%s.Buffer{}"),
+    ("strings", '"strings"', "*%s.Builder", "&%s.Builder{}"),
+    ("sync", '"sync"', "*%s.Mutex", "&%s.Mutex{}"),
+    ("bufio", '"bufio"', "*%s.Reader", "%s.NewReader(nil)"),
+    ("url", '"net/url"', "*%s.URL", "&%s.URL{}"),
+    ("rand", '"math/rand"', "*%s.Rand", "%s.New(%s.NewSource(1))"),
+    ("list", '"container/list"', "*%s.List", "%s.New()"),
+    ("big", '"math/big"', "*%s.Int", "%s.NewInt(1)"),
+    ("tar", '"archive/tar"', "*%s.Header", "&%s.Header{}"),
+]
+
+
+def clash_package(rnd, idx):
+    """files {name: text}, targets; provider file k.go (or m.go) imports 1..3 pool packages (some aliased), other files
+    declare package-level identifiers equal to the real package names."""
+    picks = rnd.sample(CLASH_POOL, rnd.randint(1, 3))
+    inj_file = rnd.choice(["k.go", "m.go"])
+    imports = []
+    body = "type Out%d struct{ N int }\n" % idx
+    provs = []
+    params = []
+    decls = {}                      # other file -> list of declarations
+    for j, (name, path, ty, ctor) in enumerate(picks):
+        aliased = rnd.random() < 0.6
+        local = (rnd.choice(["std", "x", "the"]) + name) if aliased else name
+        imports.append("\t%s%s" % ((local + " ") if aliased else "", path))
+        t = ty % local
+        c = ctor.replace("%s", local)
+        body += "func NewP%d_%d() %s { return %s }\n" % (idx, j, t, c)
+        provs.append(rnd.choice(["kessoku.Async(kessoku.Provide(NewP%d_%d))", "kessoku.Provide(NewP%d_%d)"]) % (idx, j))
+        params.append("p%d %s" % (j, t))
+        if aliased and rnd.random() < 0.8:
+            # the real name is free in the importing file: some other file of the package may declare it
+            other = rnd.choice(["a_decl.go", "z_decl.go", "l_decl.go"])
+            kind = rnd.choice(["var %s = %d", "const %s = %d", "func %s() int { return %d }", "type %s [%d]int"])
+            decls.setdefault(other, []).append(kind % (name, j + 1))
+    body += "func NewOut%d(%s) (*Out%d, error) { return &Out%d{N: %d}, nil }\n" % (idx, ", ".join(params), idx, idx, len(picks))
+    provs.append("kessoku.Provide(NewOut%d)" % idx)
+    body += 'var _ = kessoku.Inject[*Out%d]("InitOut%d",\n%s)\n' % (idx, idx, "".join("\t%s,\n" % x for x in provs))
+    files = {inj_file: HDR + "import (\n" + "\n".join(sorted(imports + ['\t"github.com/mazrean/kessoku"'])) + "\n)\n\n" + body}
+    for fn, ds in decls.items():
+        files[fn] = HDR + "\n".join(ds) + "\n"
+    return files, [inj_file], dict(kind="import-name clash", picks=[x[0] for x in picks], other_files=sorted(decls))
+
+
+# one invocation over files of TWO packages that have the same package name (`kessoku api/k.go worker/k.go`): the
+# package-level names of each must be reserved when its injectors are generated
+def multi_pkg(order):
+    def pk(tag, T1, T2, T3):
+        l1, l2, l3 = T1.lower(), T2.lower(), T3.lower()
+        k = ('package main\n\nimport (\n\t"context"\n\n\t"github.com/mazrean/kessoku"\n)\n\n'
+             'type {T1} struct{{ Addr string }}\ntype {T2} struct{{ A string }}\ntype {T3} struct{{ A string }}\n'
+             'func New{T1}() *{T1} {{ return &{T1}{{Addr: {l1}.Addr}} }}\n'
+             'func New{T2}(c *{T1}) (*{T2}, error) {{ return &{T2}{{A: c.Addr}}, nil }}\n'
+             'func New{T3}(c *{T1}, s *{T2}) *{T3} {{ return &{T3}{{A: c.Addr + s.A + {l2}.A + {l3}}} }}\n'
+             'var _ = kessoku.Inject[*{T3}]("Init{tag}",\n\tkessoku.Async(kessoku.Provide(New{T1})), kessoku.Async(kessoku.Provide(New{T2})), kessoku.Provide(New{T3}),\n)\n'
+             'func main() {{\n\ta, err := Init{tag}(context.Background())\n\tif err != nil || a.A != "{tag}{tag}+{tag}" {{\n\t\tpanic("wrong result " + a.A)\n\t}}\n}}\n'
+             ).format(T1=T1, T2=T2, T3=T3, l1=l1, l2=l2, l3=l3, tag=tag)
+        dflt = 'package main\n\nvar %s = %s{Addr: "%s"}\n\nvar %s = %s{A: "+"}\n\nconst %s = "%s"\n' % (l1, T1, tag, l2, T2, l3, tag)
+        return k, dflt
+    files = {}
+    for dname, tag, ts in (("api", "A", ("Config", "Store", "App")), ("worker", "W", ("Settings", "Queue", "Job"))):
+        k, dflt = pk(tag, *ts)
+        files["%s/k.go" % dname] = k
+        files["%s/defaults.go" % dname] = dflt
+    targets = ["api/k.go", "worker/k.go"] if order == 0 else ["worker/k.go", "api/k.go"]
+    return files, targets, dict(kind="naming: two packages with the same name in one invocation", vet_pkgs=["./api", "./worker"], run_pkgs=["./api", "./worker"])
+
+
 NAMING = {
     # allocator adversaries: every one of these must compile
     "suffix_types": '''type Foo struct{ X int }
@@ -221,6 +295,7 @@ def write_pkg(mod, name, files):
     d = os.path.join(mod, name)
     os.makedirs(d, exist_ok=True)
     for fn, txt in files.items():
+        os.makedirs(os.path.dirname(os.path.join(d, fn)), exist_ok=True)
         with open(os.path.join(d, fn), "w") as f:
             f.write(txt)
     return d
@@ -237,13 +312,13 @@ def stage(seed, tier):
     cpath = os.path.join(vlib.CACHE, "stage", key + ".json")
     if os.path.exists(cpath) and not os.environ.get("VERIF_NOCACHE"):
         return json.load(open(cpath))
-    res = _stage(seed, tier)
+    res = _stage(seed, tier, key)
     os.makedirs(os.path.dirname(cpath), exist_ok=True)
     json.dump(res, open(cpath, "w"))
     return res
 
 
-def _stage(seed, tier):
+def _stage(seed, tier, key="N-x"):
     kessoku = vlib.build_kessoku()
     rnd = random.Random(seed * 101 + 7)
     mod = vlib.new_scratch_module("n")
@@ -255,10 +330,19 @@ def _stage(seed, tier):
     body = FOREIGN_USER + FOREIGN_MAIN
     pkgs.append(("foreign_generated", {"k.go": HDR + 'import (\n\t"context"\n\n\t"github.com/mazrean/kessoku"\n)\n\n' + body, "pill_string.go": FOREIGN_GEN}, ["k.go"], None,
                  dict(kind="naming: package-level names declared in a file generated by another tool", run=True)))
+    body2 = FOREIGN_USER.replace("func NewInfo() *BuildInfo { return &buildInfo }\n", "").replace("kessoku.Async(kessoku.Value(&buildInfo))", "kessoku.Value(buildInfo)").replace("b *BuildInfo", "b BuildInfo") + FOREIGN_MAIN
+    pkgs.append(("foreign_generated_val", {"k.go": HDR + 'import (\n\t"context"\n\n\t"github.com/mazrean/kessoku"\n)\n\n' + body2, "pill_string.go": FOREIGN_GEN}, ["k.go"], None,
+                 dict(kind="naming: a package-level variable of a generated file passed by value", run=True)))
     nt = 60 if tier == "quick" else 600
     for i in range(nt):
         body, types = type_package(rnd, i)
         pkgs.append(("ty%d" % i, {"k.go": wrap(body)}, ["k.go"], None, dict(kind="types", types=types)))
+    for o in (0, 1):
+        files, targets, meta = multi_pkg(o)
+        pkgs.append(("mp%d" % o, files, targets, None, meta))
+    for i in range(16 if tier == "quick" else 120):
+        files, targets, meta = clash_package(rnd, i)
+        pkgs.append(("cl%d" % i, files, targets, None, meta))
     for kid, (body, sig) in KNOWN.items():
         pkgs.append(("known_" + kid.replace("-", "_"), {"k.go": wrap(body)}, ["k.go"], kid, dict(kind="known finding reproducer", signature=sig)))
     def one(p):
@@ -268,19 +352,22 @@ def _stage(seed, tier):
         rec = dict(name=name, expect=expect, meta=meta, gen_rc=rc, gen_err=e[-600:] if rc else "", vet_rc=None, vet="", run_rc=None, dir=name)
         if rc != 0:
             return rec
-        rc2, o2, e2 = vlib.run(["go", "vet", "."], cwd=d, env=vlib.goenv(), timeout=600)
+        rc2, o2, e2 = vlib.run(["go", "vet"] + meta.get("vet_pkgs", ["."]), cwd=d, env=vlib.goenv(), timeout=600)
         rec["vet_rc"] = rc2
         rec["vet"] = (o2 + e2)[-1500:]
-        if rc2 == 0 and meta.get("run"):
-            rc3, o3, e3 = vlib.run(["go", "run", "."], cwd=d, env=vlib.goenv(), timeout=300)
-            rec["run_rc"] = rc3
-            rec["run_err"] = (o3 + e3)[-600:]
+        if rc2 == 0 and (meta.get("run") or meta.get("run_pkgs")):
+            for rp in meta.get("run_pkgs", ["."]):
+                rc3, o3, e3 = vlib.run(["go", "run", rp], cwd=d, env=vlib.goenv(), timeout=300)
+                rec["run_rc"] = rc3
+                rec["run_err"] = (o3 + e3)[-600:]
+                if rc3:
+                    break
         band = {t[:-3] + "_band.go": open(os.path.join(d, t[:-3] + "_band.go")).read() for t in targets if os.path.exists(os.path.join(d, t[:-3] + "_band.go"))}
         rec["band"] = {k: v[:6000] for k, v in band.items()}
         return rec
     with ThreadPoolExecutor(max_workers=10) as ex:
         recs = list(ex.map(one, pkgs))
-    keep = os.path.join(vlib.CACHE, "stage", "N-src-%s-%s" % (seed, tier))
+    keep = os.path.join(vlib.CACHE, "stage", key + "-src")
     shutil.rmtree(keep, ignore_errors=True)
     shutil.copytree(mod, keep)
     return dict(records=recs, srcdir=keep)
